@@ -286,14 +286,19 @@ func trimStack(b []byte) string {
 // Hex is a helper for witnesses.
 func Hex(b []byte) string { return hex.EncodeToString(b) }
 
-// Finish writes the summary file. complete=false marks a partial run.
-func (r *R) Finish() {
+// FinishPartial writes the summary of an unfinished run (watchdog).
+func (r *R) FinishPartial() { r.finish(false) }
+
+// Finish writes the summary file.
+func (r *R) Finish() { r.finish(true) }
+
+func (r *R) finish(complete bool) {
 	r.mu.Lock()
 	defer r.mu.Unlock()
 	s := Summary{Property: r.Prop, Tier: r.Tier, Seed: r.Seed, Part: r.Part,
 		Evaluations: r.evals.Load(), Distinct: len(r.distinct), Classes: r.classes,
 		Samples: r.samples, Notes: r.notes, Inconcl: r.inconcl, Rule: r.rule, Assumptions: r.assume,
-		WallS: time.Since(r.start).Seconds(), Complete: true}
+		WallS: time.Since(r.start).Seconds(), Complete: complete}
 	for k := range r.ops {
 		s.Ops = append(s.Ops, k)
 	}
